@@ -10,13 +10,34 @@ def U(pkg, run, quick, thorough, **kw):
     return d
 
 
-HOOK_COMMITS = []
+HOOK_COMMITS = ["7d5fc3e"]
 
 # Properties without a registered check yet (kept current; see DESIGN.md).
 NOT_APPLICABLE = {pid: "check not built yet in this round (planned, DESIGN.md section 4)" for pid in
                   ["C%02d" % i for i in range(1, 20)]}
 
+
 CHECKS = {
+    "C18": {
+        "level": "exploration",
+        "engine": "pure",
+        "needs_bins": ["dumpargs"],
+        "technique": "property-based testing (rapid): round trip through a real /bin/sh of quoted strings and of job scripts rendered from the shipped templates",
+        "level_text": ("Generated-input search with /bin/sh as oracle: strings over a shell-metacharacter-weighted alphabet (plus template placeholder "
+                       "names) are quoted and evaluated by sh; job scripts rendered from fake_remote/sge/lsf templates start a reporter program whose "
+                       "argv, environment, redirection targets must equal the generated originals. Exploration, not proof."),
+        "level_note": "Trusts /bin/sh (dash) as the POSIX shell; cluster schedulers' own parsing of #$/#BSUB directive lines is not exercised.",
+        "rule": ("rapid strings without NUL over an alphabet weighted to shell metacharacters, hostile words ($(..), `..`, ${VAR}, placeholder names "
+                 "__MRO_*__), used as program directory, argument, environment value, metadata (stdout/stderr) directory. Non-trivial: contains >= 1 shell "
+                 "metacharacter (quote class) or is invalid UTF-8 (bytes extension class); distinct by hash of string / rendered script."),
+        "assumptions": ["/bin/sh is a POSIX shell", "paths cannot contain '/' inside a component or NUL"],
+        "units": [
+            U("props/sys", "TestC18Quote", (1500, 2), (20000, 4)),
+            U("props/sys", "TestC18QuoteBytes", (600, 1), (8000, 2)),
+            U("props/sys", "TestC18JobScript", (500, 6), (6000, 10)),
+        ],
+        "floors": {"quick": {"script:fake_remote": 500, "script:sge": 200, "quote": 10000}},
+    },
     "C17": {
         "level": "exploration",
         "technique": "property-based testing (rapid): differential against an independent reference validator/filter, idempotence, assignability laws",
